@@ -1008,6 +1008,35 @@ fn text_b64(out: &mut Out, rng: &mut R, n: usize, psets: &[Pset]) {
         };
         out.s("pset_from_str_is_base64_then_deserialize", same, || hex(&b));
     }
+    // size ladder: the text form is ONE base64 string of the whole binary encoding, whatever its length (a
+    // formatter that works in pieces must not pad in the middle). Sizes around 2^16 and 2^17, all residues mod 3.
+    if let Some(base) = psets.iter().find(|p| matches!(std::panic::catch_unwind(std::panic::AssertUnwindSafe(|| deserialize::<Pset>(&serialize(*p)))), Ok(Ok(ref q)) if q == *p)) {
+        let base_len = {
+            let mut q = base.clone();
+            q.global.proprietary.insert(pset::raw::ProprietaryKey { prefix: b"evsz".to_vec(), subtype: 0, key: vec![] }, vec![0u8; 70_000]);
+            serialize(&q).len() - 70_000
+        };
+        for target in [49_151usize, 49_152, 65_534, 65_535, 65_536, 65_537, 65_538, 65_539, 98_304, 98_305, 131_071, 131_072, 131_073, 131_074, 196_609] {
+            let mut q = base.clone();
+            let mut fill_len = target - base_len;
+            let mut b = vec![];
+            for _ in 0..3 {
+                // the length prefix of the value changes width at 2^16: adjust until the target is met
+                q.global.proprietary.insert(pset::raw::ProprietaryKey { prefix: b"evsz".to_vec(), subtype: 0, key: vec![] }, gen::bytes(rng, fill_len));
+                b = serialize(&q);
+                if b.len() == target { break }
+                fill_len = fill_len + target - b.len();
+            }
+            out.count(if b.len() == target { "pset.size_ladder" } else { "pset.size_ladder_off_target" });
+            let s = match std::panic::catch_unwind(std::panic::AssertUnwindSafe(|| q.to_string())) { Ok(s) => s, Err(_) => { out.s("pset_display_never_panics", false, || format!("len {}", b.len())); continue } };
+            out.s("pset_text_is_one_base64_string", s == BASE64_STANDARD.encode(&b), || format!("binary length {}: text differs from base64(serialize) at char {:?}", b.len(), s.chars().zip(BASE64_STANDARD.encode(&b).chars()).position(|(x, y)| x != y)));
+            if b.len() <= 66_000 {
+                out.k(format!("b64 {}", hex(&b)), format!("ok {}", s));
+            }
+            let back = std::panic::catch_unwind(std::panic::AssertUnwindSafe(|| Pset::from_str(&s)));
+            out.s("text_roundtrip.pset_base64", matches!(&back, Ok(Ok(p2)) if *p2 == q), || format!("binary length {}: {:?}", b.len(), back.as_ref().map(|r| r.as_ref().map(|_| "parsed-to-different-pset").map_err(|e| e.to_string()))));
+        }
+    }
 }
 
 // ------------------------------------------------------------------------------------------ generators (local)
